@@ -780,6 +780,9 @@ func (g *gen) nilCase() *Case {
 func (g *gen) addStatics(c *Case, tpaths []pinfo) string {
 	r := g.r
 	used := targetPaths(c.Decls)
+	for _, s := range c.Statics {
+		used = append(used, s.To)
+	}
 	kind := "ok"
 	n := r.Range(1, 2)
 	for i := 0; i < n && len(tpaths) > 0; i++ {
